@@ -34,6 +34,11 @@ pub fn table() -> Vec<(&'static str, String, Want)> {
         ("type-named-init", with("type init struct {\n    a int32\n}\n", "    p(\"a\")\n"), Want::Reject("redeclared")),
         ("type-named-main", "package main\n\nimport (\n    \"fmt\"\n)\n\ntype main struct {\n    a int32\n}\n\nfunc f() {\n    fmt.Println(\"a\")\n}\n".to_string(), Want::Reject("redeclared")),
         ("function-used-before-its-declaration-is-legal", with("func g() int32 {\n    return h()\n}\n\nfunc h() int32 {\n    return 3\n}\n", "    p(i2s(g()))\n"), Want::Ok("3\n")),
+        // --- method values (spec: Method values: "x.M ... is a function value that is callable with the same arguments as a method call of x.M"; "the expression x is evaluated and saved during the evaluation of the method value; the saved copy is then used as the receiver in any calls")
+        ("method-value-is-a-function-value", with("type E struct {\n    k int32\n}\n\nfunc (env E) call(p0 int32) int32 {\n    return add(env, p0)\n}\n\nfunc add(env E, x int32) int32 {\n    return env.k + x\n}\n\nfunc twice(f func(int32) int32, x int32) int32 {\n    return f(f(x))\n}\n", "    var e E = E{\n        k: 5,\n    }\n    var f func(int32) int32 = e.call\n    p(i2s(twice(f, 1)))\n"), Want::Ok("11\n")),
+        ("method-value-saves-a-copy-of-the-receiver", with("type E struct {\n    k int32\n}\n\nfunc (env E) call(p0 int32) int32 {\n    return env.k + p0\n}\n", "    var e E = E{\n        k: 5,\n    }\n    var f func(int32) int32 = e.call\n    e = E{\n        k: 100,\n    }\n    p(i2s(f(1)))\n    p(i2s(e.k))\n"), Want::Ok("6\n100\n")),
+        ("method-value-at-the-wrong-function-type", with("type E struct {\n    k int32\n}\n\nfunc (env E) call(p0 int32) int32 {\n    return env.k + p0\n}\n", "    var e E = E{\n        k: 5,\n    }\n    var f func(string) int32 = e.call\n    _ = f\n    p(\"a\")\n"), Want::Reject("assign")),
+        ("method-with-a-result-called-directly", with("type E struct {\n    k int32\n}\n\nfunc (env E) call(p0 int32) int32 {\n    return env.k + p0\n}\n", "    var e E = E{\n        k: 5,\n    }\n    p(i2s(e.call(2)))\n"), Want::Ok("7\n")),
         // --- assignability (spec: Assignability)
         ("assign-string-to-int", m("    var x int32 = \"s\"\n    p(i2s(x))\n"), Want::Reject("assign")),
         ("assign-int32-var-to-int64", m("    var x int32 = 1\n    var y int64 = x\n    _ = y\n"), Want::Reject("assign")),
